@@ -120,6 +120,16 @@ pub fn run_cmd(mut cmd: Command, timeout: Duration) -> RunResult {
     RunResult { code, signal: status.map(|s| s.code().is_none()).unwrap_or(true) && !timed_out, stdout, stderr, wall: start.elapsed(), timed_out, cpu_bound }
 }
 
+/// Where the lanes live (a side run has its own: see `vcommon::side_dir`).
+pub fn lanes_dir() -> PathBuf {
+    vcommon::side_dir().unwrap_or_else(|| PathBuf::from(WORK)).join("lanes")
+}
+
+/// The compiler binary under test (`PX_PAVEXC_BIN` is a debugging aid for side runs).
+pub fn pavexc_bin() -> String {
+    std::env::var("PX_PAVEXC_BIN").ok().filter(|s| !s.is_empty()).unwrap_or_else(|| PAVEXC.to_string())
+}
+
 pub struct Lane {
     pub name: String,
     pub dir: PathBuf,
@@ -127,7 +137,7 @@ pub struct Lane {
 
 impl Lane {
     pub fn new(name: &str) -> Lane {
-        let dir = Path::new(WORK).join("lanes").join(name);
+        let dir = lanes_dir().join(name);
         std::fs::create_dir_all(dir.join("ws")).expect("lane dir");
         std::fs::create_dir_all(dir.join("home")).expect("lane home");
         let lane = Lane { name: name.to_string(), dir };
@@ -150,7 +160,7 @@ impl Lane {
         let master = Path::new(WORK).join("home-master").join(".pavex");
         let mine = self.home().join(".pavex");
         if master.exists() && !mine.exists() {
-            let _ = Command::new("cp").arg("-r").arg(&master).arg(&mine).status();
+            let _ = Command::new("cp").arg("-a").arg(&master).arg(&mine).status();
         }
     }
 
@@ -280,7 +290,7 @@ impl Lane {
 
     /// Run `pavexc generate`. `out` is relative to the workspace root.
     pub fn pavexc(&self, bp: &Path, out: &str, diagnostics: Option<&Path>, check: bool, env: &[(&str, &str)]) -> RunResult {
-        let mut cmd = Command::new(PAVEXC);
+        let mut cmd = Command::new(pavexc_bin());
         cmd.arg("--color").arg("never").arg("generate").arg("-b").arg(bp).arg("-o").arg(out);
         if let Some(d) = diagnostics {
             cmd.arg("--diagnostics").arg(d);
